@@ -1,0 +1,35 @@
+//go:build verif
+
+// Contracts for transaction admission by sender (C36), read by /verif/gocv.
+package proc
+
+// the ledger key isValidSender reads for address a: RELAYER prefix followed by the 20 address bytes,
+// the same bytes relayer_manager.putRelayer stores under (contract ++ "relayer" ++ a)
+//@ spec relayerLedgerKey(a common.Address) Bytes = bcat(bytes("relayer"), bytes(a))
+//@ spec isRelayer(a common.Address) bool = len(ledgerVal(utils.RelayerManagerContractAddress, relayerLedgerKey(a))) != 0
+
+//@ func (*TxActor).isValidSender
+//@   property C36
+//@   mode abstract
+//@   requires txn != nil
+//@   modifies nothing
+//@   ghost var wa common.Address
+//@   ghost var found bool = false
+//@   loop 1 invariant flag <==> !found
+//@   loop 1 invariant found ==> sigAddrSet(ref(txn), wa) && (isRelayer(wa) || (has(permittedAddrMap, wa) && permittedAddrMap[wa]))
+//@   set before "flag = false" : wa := address
+//@   set before "flag = false" : found := true
+//@   callsite[c36-relayer-key] GetStorageItem#1 requires arg0 == utils.RelayerManagerContractAddress && bytes(arg1) == relayerLedgerKey(address)
+//@   -- accepted only if some signing address is a registered relayer or a permitted consensus address
+//@   ensures[c36-admitted] err == nil ==> sigAddrSet(ref(txn), wa) && (isRelayer(wa) || (has(permittedAddrMap, wa) && permittedAddrMap[wa]))
+
+//@ func (*TxActor).handleTransaction
+//@   property C36
+//@   mode abstract
+//@   requires ta != nil && txn != nil
+//@   modifies *
+//@   ghost var admitted bool = false
+//@   set after "err = ta.isValidSender(txn)" : admitted := err == nil
+//@   callsite[c36-gate] isValidSender#1 requires arg0 == txn
+//@   -- a transaction is handed to a validation worker (and from there to the pool) only after the sender gate passed for it
+//@   callsite[c36-admitted-only] assignTxToWorker#1 requires admitted && arg0 == txn
